@@ -1,12 +1,12 @@
 #!/bin/bash
 # usage: seedsave.sh <srcdir> <id> <detected-by text> ; archives a confirmed seeded change under /verif/seeded/<id>/
 set -e
-src="$1"; id="$2"; by="$3"
+src="$1"; id="$2"; by="$3"; prop="${4:-}"
 d=/verif/seeded/$id; mkdir -p "$d"
 cp "$src/patch.diff" "$d/"
 [ -f "$src/demo_test.go" ] && cp "$src/demo_test.go" "$d/demo_test.go.txt"
 [ -d "$src/demo" ] && { rm -rf "$d/demo"; cp -r "$src/demo" "$d/demo"; find "$d/demo" -name '*.go' -exec mv {} {}.txt \; ; }
-res=$(/verif/tools/seedcheck.sh "$src" 2>&1)
-jq --arg by "$by" --arg res "$res" --arg base "$(git -C /repo log --format=%h -1)" \
-  '. + {confirmed_by_me: {ran: "tools/seedcheck.sh (scratch copies of /repo: build, existing suite, demonstration on clean and patched tree, then imapcheck on the patched tree)", result: $res, repo_head: $base}, detected_by: $by}' "$src/meta.json" > "$d/meta.json"
+res=$(/verif/tools/seedcheck.sh "$src" $prop 2>&1)
+jq --arg prop "$prop" --arg by "$by" --arg res "$res" --arg base "$(git -C /repo log --format=%h -1)" \
+  '(if $prop != "" then .checked_as = $prop else . end) + {confirmed_by_me: {ran: "tools/seedcheck.sh (scratch copies of /repo: build, existing suite, demonstration on clean and patched tree, then imapcheck on the patched tree)", result: $res, repo_head: $base}, detected_by: $by}' "$src/meta.json" > "$d/meta.json"
 echo "$res" | head -1
